@@ -28,6 +28,10 @@ class Schedule:
         self.assign = assign or (lambda m, p: [i % p for i in range(m)])
         self.name = name
         self.max_workers = max_workers     # how many workers are forked in the pool constructor (like the real pool does for all p)
+        # order in which finished chunks are handed back by the *unordered* pool APIs: a permutation of the chunk indices that
+        # keeps the chunks of one worker in index order. Default: workers finish in REVERSE order (worker p-1 first), which is
+        # the completion order most unlike the submission order.
+        self.completion = None
         self.log: list[dict] = []      # one entry per starmap call: processes, chunk sizes, assignment used
 
 
@@ -164,6 +168,71 @@ class DetPool:
 
     def map(self, func: Callable, iterable, chunksize: int | None = None) -> list:
         return self._run(func, iterable, False, chunksize)
+
+    # -- the rest of the Pool API, so that a library change to another entry point is still explored (not a harness error)
+    def imap(self, func: Callable, iterable, chunksize: int = 1):
+        return iter(self._run(func, iterable, False, chunksize))
+
+    def imap_unordered(self, func: Callable, iterable, chunksize: int = 1):
+        """Results are handed back chunk by chunk in COMPLETION order, which the schedule owns."""
+        items = list(iterable)
+        res = self._run(func, items, False, chunksize)
+        entry = CURRENT.log[-1]
+        sizes, assignment = entry["chunk_sizes"], entry["assignment"]
+        order = completion_order(assignment, CURRENT.completion)
+        entry["completion"] = order
+        starts = [sum(sizes[:i]) for i in range(len(sizes))]
+        out = []
+        for c in order:
+            out.extend(res[starts[c]:starts[c] + sizes[c]])
+        return iter(out)
+
+    def apply(self, func: Callable, args=(), kwds=None):
+        return self._run(_Apply(func, kwds or {}), [tuple(args)], True, 1)[0]
+
+    def apply_async(self, func: Callable, args=(), kwds=None, callback=None, error_callback=None):
+        return _Result([self.apply(func, args, kwds)], single=True, callback=callback)
+
+    def map_async(self, func: Callable, iterable, chunksize: int | None = None, callback=None, error_callback=None):
+        return _Result(self._run(func, iterable, False, chunksize), callback=callback)
+
+    def starmap_async(self, func: Callable, iterable, chunksize: int | None = None, callback=None, error_callback=None):
+        return _Result(self._run(func, iterable, True, chunksize), callback=callback)
+
+
+class _Apply:
+    def __init__(self, func, kwds) -> None:
+        self.func, self.kwds = func, kwds
+
+    def __call__(self, *args):
+        return self.func(*args, **self.kwds)
+
+
+class _Result:
+    def __init__(self, value, single: bool = False, callback=None) -> None:
+        self._value = value[0] if single else value
+        if callback is not None:
+            callback(self._value)
+
+    def get(self, timeout=None):
+        return self._value
+
+    def wait(self, timeout=None) -> None:
+        return None
+
+    def ready(self) -> bool:
+        return True
+
+    def successful(self) -> bool:
+        return True
+
+
+def completion_order(assignment: list[int], chooser=None) -> list[int]:
+    """A completion order of the chunks compatible with 'each worker finishes its own chunks in index order'."""
+    if chooser is not None:
+        return list(chooser(assignment))
+    workers = sorted(set(assignment), reverse=True)
+    return [i for w in workers for i, a in enumerate(assignment) if a == w]
 
 
 # ----------------------------------------------------------------------------- schedule enumeration
